@@ -188,7 +188,7 @@ func buildCatalogue() []deviation {
 		m.Set("expiry", jTime(st0.Add(200*time.Millisecond)), nil)
 		addCrit(m, envcodec.JExpiry)
 	})
-	add("expiry-float-just-later", true, coseOnly, func(m *Model) {
+	add("expiry-float-just-later", false, coseOnly, func(m *Model) {
 		m.Set("expiry", "", envcodec.Tag(1, envcodec.Float64(float64(st0.Unix())+0.5)))
 		addCrit(m, envcodec.JExpiry)
 	})
@@ -223,8 +223,8 @@ func buildCatalogue() []deviation {
 	// --- COSE time encodings -------------------------------------------------------------
 	add("time-tag0-string", false, coseOnly, func(m *Model) { m.Set("time", "", envcodec.Tag(0, envcodec.Tstr(st0.Format(time.RFC3339)))) })
 	add("time-untagged-int", false, coseOnly, func(m *Model) { m.Set("time", "", envcodec.Int(st0.Unix())) })
-	add("time-tag1-float", true, coseOnly, func(m *Model) { m.Set("time", "", envcodec.Tag(1, envcodec.Float64(float64(st0.Unix())+0.25))) })
-	add("time-tag1-negative", true, coseOnly, func(m *Model) { m.Set("time", "", envcodec.Tag(1, envcodec.Int(-86400))) })
+	add("time-tag1-float", false, coseOnly, func(m *Model) { m.Set("time", "", envcodec.Tag(1, envcodec.Float64(float64(st0.Unix())+0.25))) })
+	add("time-tag1-negative", false, coseOnly, func(m *Model) { m.Set("time", "", envcodec.Tag(1, envcodec.Int(-86400))) })
 	add("time-tag1-tstr", false, coseOnly, func(m *Model) { m.Set("time", "", envcodec.Tag(1, envcodec.Tstr("1622548800"))) })
 	add("time-tag2", false, coseOnly, func(m *Model) { m.Set("time", "", envcodec.Tag(2, envcodec.Bstr([]byte{0x60, 0xb6, 0x23, 0x40}))) })
 	add("expiry-tag0-string", false, coseOnly, func(m *Model) {
@@ -651,7 +651,7 @@ func conflictFree(c *Case) bool {
 func run(r *core.Run) int {
 	r.Rule = "envelopes signed by the harness's own encoder from a conformant header set plus deviations: every single deviation, every ordered pair, seed-drawn sets of 3..5, in both formats and both schemes, with and without expiry in the base; " +
 		"oracles: (i) post-conditions of the statement on everything Verify() or Content() accepts, judged against an independent header decode, (ii) conformant variations must be accepted, (iii) Verify() ok implies Content() ok with an identical result. non-trivial = at least one deviation; distinct by descriptor"
-	r.Assume("deviations the statement does not speak to (duplicate JSON members, duplicate crit entries, crit naming alg, an additional unused time header) may go either way and are only counted")
+	r.Assume("deviations the statement does not speak to (duplicate JSON members, duplicate crit entries, crit naming alg, an additional unused time header, tag-1 times that are floats or negative) may go either way and are only counted; when accepted the post-conditions still apply")
 	var cases []*Case
 	var names []string
 	for _, d := range catalogue {
